@@ -112,7 +112,7 @@ impl LuaValue {
     /// possible and return the same value otherwise.
     pub fn string_coercion(self) -> Self {
         match &self {
-            Self::Number(value) => Some(Self::from(value.to_string())),
+            Self::Number(value) => number_to_string(*value).map(Self::from),
             _ => None,
         }
         .unwrap_or(self)
@@ -124,6 +124,18 @@ impl LuaValue {
             Self::String(value) => LuaValue::Number(value.len() as f64),
             _ => LuaValue::Unknown,
         }
+    }
+}
+
+/// Convert a number to the string Lua produces, when Rust formats the number the same way: Lua
+/// spells NaN `nan` or `-nan` and switches to the exponent notation for large and small magnitudes
+/// (`1e+21`, `1e-07`), which Rust never does.
+fn number_to_string(value: f64) -> Option<String> {
+    let magnitude = value.abs();
+    if value.is_infinite() || magnitude == 0.0 || (1e-4..1e15).contains(&magnitude) {
+        Some(value.to_string())
+    } else {
+        None
     }
 }
 
